@@ -261,7 +261,6 @@ func (c Cond) WithY(isY func(desc string) bool) (Cond, bool) {
 	return c, false
 }
 
-
 func isInteger(v ssa.Value) bool {
 	if v == nil {
 		return false
